@@ -160,7 +160,8 @@ def vector_src(ns, nl, npar, ni2c, other, same_name=False, lcd_order="parallel-f
         lines += ["led = Led(13)", "btn = Button(2)"]
     for k in range(ns):
         lines.append(f"sa{k} = Servo({3 + k})")
-    par = [f"lp{k} = LCD(rs=12, en=11, d4=5, d5=4, d6=3, d7={2 + k})" for k in range(npar)]
+    par = [(f"lp{k} = LCD(rs=12, en=11, d4=5, d5=4, d6=3, d7={2 + k})" if lcd_order != "with-rw-pin" else f"lp{k} = LCD(rs=12, en=11, d4=5, d5=4, d6=3, d7={2 + k}, rw=10)")
+           for k in range(npar)]
     i2c = [f"li{k} = LCD(i2c_addr={39 + k})" for k in range(ni2c)]
     if lcd_order == "i2c-first":
         lcds = i2c + par
@@ -198,8 +199,8 @@ def extra_obligations(mods, tier, seed):
     samples = []
     space = [(ns, nl, npar, ni2c, other, "parallel-first") for ns, nl, npar, ni2c, other in itertools.product(range(3), range(3), range(3), range(3), (False, True))]
     # declaration order of the two LCD kinds (and of displays relative to servos) must not matter
-    space += [(ns, nl, npar, ni2c, other, order) for order in ("i2c-first", "interleaved", "lcd-before-servo")
-              for ns, nl, npar, ni2c, other in itertools.product((0, 1), (0, 1), (1, 2), (1, 2), (False, True))]
+    space += [(ns, nl, npar, ni2c, other, order) for order in ("i2c-first", "interleaved", "lcd-before-servo", "with-rw-pin")
+              for ns, nl, npar, ni2c, other in itertools.product((0, 1), (0, 1), (1, 2), (0, 1, 2) if order == "with-rw-pin" else (1, 2), (False, True))]
     for ns, nl, npar, ni2c, other, order in space:
         src = vector_src(ns, nl, npar, ni2c, other, lcd_order=order)
         n += 1
